@@ -159,6 +159,8 @@ func ExitInconclusive(msg string) {
 	os.Exit(3)
 }
 
+var unownedWedges int
+
 // violationSaved is the replay path of the first violation of this process.
 var violationSaved string
 
@@ -321,6 +323,18 @@ func CheckE1(t *testing.T, prop string, cfg GenCfg, nontrivial func(*Case, *Worl
 		c := NewGen(rt, cfg).Case()
 		w := Exec(c)
 		RecordCase(prop, c, w, nontrivial(c, w))
+		if !owned[FWedge] {
+			// a proven deadlock of the Watcher is C01/C05/C07's finding; here it
+			// only means that nothing more can be learnt about this property
+			for _, f := range w.Findings {
+				if f.Class == FWedge {
+					unownedWedges++
+				}
+			}
+			if unownedWedges >= 3 {
+				ExitInconclusive("the Watcher deadlocks (reported by C01/C05/C07); " + prop + " cannot be explored on this tree")
+			}
+		}
 		if rep := Report(c, w, owned); rep != nil {
 			small := Shrink(c, owned, 400)
 			if w2, _ := ExecQuiet(small); w2 != nil {
